@@ -72,12 +72,7 @@ func init() {
 		states := append(fsUniverse(contents), fsProbeStates()...)
 		// trees that hold symbolic links (to a collection, to a file, dangling, to an ancestor): only the leak
 		// invariant is judged on them
-		states = append(states,
-			harness.Tree{"/": {Dir: true}, "/a": {Dir: true}, "/a/a": {Content: "x"}, "/b.html": {Link: "a"}},
-			harness.Tree{"/": {Dir: true}, "/a": {Content: "x"}, "/b.html": {Link: "a"}},
-			harness.Tree{"/": {Dir: true}, "/a": {Dir: true}, "/b.html": {Link: "missing"}},
-			harness.Tree{"/": {Dir: true}, "/a": {Dir: true}, "/a/b.html": {Link: "../a"}, "/a/a": {Content: "yy"}},
-			harness.Tree{"/": {Dir: true}, "/a": {Dir: true}, "/a/a": {Link: "/nonexistent-absolute-target/x"}, "/b.html": {Content: "x"}})
+		states = append(states, fsLinkStates()...)
 		reqs := fsRequests(quick)
 		r.Rule = fmt.Sprintf("part 1: every transition of the C01 universe (%d states x %d requests) and the per-state conditional / failing-body requests of C02; part 1b: a subset of those states x every request with the served root configured in 4 further spellings (trailing slash, /., //, /./); part 2: the hostile-path alphabet of C03; part 3: every single injected OS failure (8 errno values, wrapped as package os wraps them, real absolute paths inside) at every OS call of every request of a reduced alphabet; non-trivial = the response is an error response (>= 400), where error text is sent; distinct by (tree, request[, fault])", len(states), len(reqs))
 		r.Explanation = "model-free oracle over the explicit-state exploration: every header value and body of every response is scanned for the served root's absolute path in its configured (symlinked) and resolved spelling and for every >=2-segment prefix"
